@@ -70,6 +70,7 @@ int main(int argc, char *argv[])
     int retval = 0;
     const char *m;
     char *prog = xbasename(argv[0]);
+    uid_t euid = geteuid();    /* as started: privsep_init() drops it */
 
 #if HAVE_READLINE
     rl_readline_name = prog;
@@ -111,7 +112,7 @@ int main(int argc, char *argv[])
      */
     if (!(m = getenv ("PDSH_MODULE_DIR")) ||
           getuid() == 0 ||
-          getuid() != geteuid())
+          getuid() != euid)
         m = pdsh_module_dir;
     if (mod_load_modules(m, &opt) < 0)
         errx("%p: Couldn't load any pdsh modules\n");
